@@ -2,12 +2,12 @@
 """Confirm sub-agent seeds in a scratch worktree: demo passes clean, fails patched, baseline passes unchanged.
 usage: confirm_seeds.py <agent worktree> <ID>...   -> copies confirmed seeds to /verif/seeded/A-<ID>-<n>/"""
 import json, os, shutil, subprocess, sys, xml.etree.ElementTree as ET
-WT = '/tmp/wt-verify'
+WT = os.environ.get('CONFIRM_WT', '/tmp/wt-verify')
 PREFIX = os.environ.get('SEED_PREFIX', 'A')
 def sh(cmd, **kw):
     return subprocess.run(cmd, shell=True, stdout=subprocess.PIPE, stderr=subprocess.STDOUT, **kw)
 def baseline():
-    out = '/tmp/scratch/confirm.junit.xml'
+    out = '/tmp/scratch/confirm-%s.junit.xml' % os.path.basename(WT)
     env = dict(os.environ, PYTHONPATH=WT + '/src'); env.pop('SAML2_TOPHAT_VERIF', None)
     sh('cd %s && /venv/bin/python -m pytest -q -p no:cacheprovider --timeout=900 --continue-on-collection-errors --junitxml=%s' % (WT, out), env=env)
     stable = set(json.load(open('/root/.vp/BASELINE.json'))['stable_pass'])
